@@ -62,6 +62,10 @@ THEOREMS = [
     "Nix.C16.C16_rollbacks_restore",
     "Nix.C16.C16_text_roundtrip",
     "Nix.C16.C16_getitem_is_table",
+    # the frames of a block: creation under a name, copies, independence (Pure/FrameBlock.lean)
+    "Nix.C16.C16_block_frames_independent",
+    "Nix.C16.C16_block_create",
+    "Nix.C16.C16_block_copy",
     # shape of the source (Generated/FrameShape.lean, regenerated on every run)
     "Nix.C16.C16_handles_stateless",
     "Nix.C16.C16_guards_as_modelled",
@@ -86,7 +90,8 @@ ASSUMPTIONS = [
     "(tuple by tuple and NumPy's structured cast) treat alike: well-typed cells, bool / small int / float cells for "
     "numeric columns, numbers the column cannot hold (refused); np.recarray (np.record rows) is not a "
     "structured-array creation variant for the code (type(data[0]) == np.void)",
-    "frame names / block-level state are outside the single-frame model (duplicate frame name is an oracle case)",
+    "frames are created under fresh names df<k> / copy<k>; the text of a name (validity, odd characters) is outside "
+    "the model; NameError of create_data_frame(copy_from=...) for a name in use is canonicalised to DuplicateName",
     "closing and reopening the file is the identity in the model; tied by reopen operations inside the generated "
     "histories",
     "the model has one table per frame whatever DataFrame object is used: C16_handles_stateless proves from the "
@@ -207,7 +212,7 @@ def err_name(e):
         return "OutOfBounds"
     if isinstance(e, X.DuplicateColumnName):
         return "DuplicateName"
-    if isinstance(e, X.DuplicateName):
+    if isinstance(e, X.DuplicateName) or isinstance(e, NameError):
         return "DuplicateName"
     for cls, nm in ((OverflowError, "ValueError"), (IndexError, "IndexError"), (KeyError, "KeyError"),
                     (ValueError, "ValueError"), (TypeError, "TypeError"), (OSError, "IndexError"),
@@ -234,6 +239,7 @@ class Session:
         self.cur = 0
         self.count = 0
         self.nsrc = 0
+        self.names = []         # names of the frames created so far (creation order), self.df is one of them
 
     def close(self):
         try:
@@ -374,15 +380,19 @@ class Session:
     def _create(self, **kw):
         nix, np = _nix()
         self.count += 1
-        self.df = None
         if kw.pop("compress", False):
             kw["compression"] = nix.Compression.DeflateNormal
-        self.handles = []
-        self.df = self.block.create_data_frame("df%d" % self.count, "c16", **kw)
-        # the object returned by create_data_frame and one built by the container: two live handles from the start
-        self.handles = [self.df, self.block.data_frames[self.df.name]]
-        self.cur = 0
+        # a refused creation leaves the block and the selected frame as they were
+        df = self.block.create_data_frame("df%d" % self.count, "c16", **kw)
+        self._select(df)
+        self.names.append(df.name)
         return self.dump()
+
+    def _select(self, df):
+        # the object at hand and one built by the container: two live handles from the start
+        self.df = df
+        self.handles = [df, self.block.data_frames[df.name]]
+        self.cur = 0
 
     def run(self, line, pres=0):
         """returns {'ok': ...} or {'err': name}"""
@@ -422,6 +432,19 @@ class Session:
             arr = np.array(rows, dtype=dts)
             return self._create(data=arr)
         if op == "dump":
+            return self.dump()
+        if op == "frame":
+            self._select(self.block.data_frames[self.names[a[0]]])
+            return None
+        if op == "recreate":
+            # create_data_frame with the name of an existing frame: DuplicateName whatever else is passed
+            self.block.create_data_frame(self.names[a[0]], "c16", col_dict=OrderedDict([("z", int)]))
+            return None
+        if op == "copy":
+            self.count += 1
+            cp = self.block.create_data_frame("copy%d" % self.count, copy_from=df)
+            self._select(cp)
+            self.names.append(cp.name)
             return self.dump()
         if op == "handle":
             self.use(a[0])
@@ -1131,7 +1154,7 @@ def play_history(ctx, k, stats, nops):
     """generate one history online; returns [(line, impl_out)]"""
     rng = ctx.rng
     s = Session(ctx, k)
-    hist = []
+    hist = [(["new_block"], {"ok": None})]
     try:
         line, pres = gen_create(rng, stats)
         out = s.run(line, pres)
@@ -1145,7 +1168,23 @@ def play_history(ctx, k, stats, nops):
             stats["handle"] = stats.get("handle", 0) + 1
             hist.append((hl, s.run(hl)))
 
+        def block_step():
+            # another frame of the same block: a new one (possibly refused: nothing changes), a copy of the selected
+            # one, an attempt to create one under a name that exists, or back to an earlier frame
+            kind = rng.choice(["frame", "frame", "recreate", "copy", "create"] if len(s.names) > 1 else
+                              ["recreate", "copy", "create"])
+            stats["block." + kind] = stats.get("block." + kind, 0) + 1
+            if kind == "create":
+                bl, pres = gen_create(rng, stats)
+            else:
+                bl, pres = ([kind, rng.randrange(len(s.names))] if kind != "copy" else ["copy"]), 0
+            hist.append((bl, s.run(bl, pres)))
+            if kind == "frame":
+                hist.append((["dump"], s.run(["dump"])))
+
         for _ in range(nops):
+            if rng.random() < 0.08:
+                block_step()
             if rng.random() < 0.3:
                 switch()
             line, pres = gen_op(rng, s.state(), stats)
@@ -1156,6 +1195,10 @@ def play_history(ctx, k, stats, nops):
                 hist.append((["dump"], s.run(["dump"])))
         hist.append((["reopen"], s.run(["reopen"])))
         hist.append((["dump"], s.run(["dump"])))
+        # every frame of the block still holds its own table
+        for i in range(len(s.names) - 1):
+            hist.append((["frame", i], s.run(["frame", i])))
+            hist.append((["dump"], s.run(["dump"])))
     finally:
         s.close()
     return hist
@@ -1164,7 +1207,7 @@ def play_history(ctx, k, stats, nops):
 def play_fixed(ctx, k, lines):
     """replay recorded lines (corpus) on the implementation"""
     s = Session(ctx, k)
-    hist = []
+    hist = [(["new_block"], {"ok": None})]
     try:
         for line in lines:
             if s.df is None and not line[0].startswith("create"):
@@ -1205,13 +1248,13 @@ def correspondence(ctx):
             if "bad" in m:
                 nbad += 1
             if m != impl:
-                prefix = [l for (l, _) in h[:j + 1] if l[0] != "dump" or l is line]
+                prefix = [l for (l, _) in h[:j + 1] if (l[0] != "dump" or l is line) and l[0] != "new_block"]
                 disagreements.append(Disagreement(prefix, m, impl))
                 break
             if "err" in impl:
                 errs[line[0] + ":" + impl["err"]] = errs.get(line[0] + ":" + impl["err"], 0) + 1
-            if line[0] not in ("dump", "reopen", "handle"):
-                seen.add(core.canon([h[0][0][0], line]))
+            if line[0] not in ("dump", "reopen", "handle", "frame", "new_block"):
+                seen.add(core.canon([h[1][0][0], line]))
         pos += len(h)
     disagreements.sort(key=lambda d: len(core.canon(d.case)))
     flat = [(l, o) for h in hists for (l, o) in h if l[0] != "dump"]
@@ -1451,6 +1494,7 @@ def oracle_history(ctx, k, rng, nops, fixed=None):
         f = check(sh, create[0] + describe_form(cform))
         if f:
             return evals, f
+        shadows, curi = [sh], 0          # one shadow per frame of the block, the selected one
         # ---- operations
         j = 0
         while True:
@@ -1461,15 +1505,41 @@ def oracle_history(ctx, k, rng, nops, fixed=None):
             else:
                 if j >= nops:
                     break
-                line, expect = oracle_op(rng, sh)
+                line, expect = oracle_op(rng, sh, len(shadows))
             pres = ops[j].get("pres") if ops is not None else None
             if pres is None:
                 pres = rng.randrange(1000)
             j += 1
             hist.append({"line": line, "expect": expect, "pres": pres})
             evals += 1
+            shadows[curi] = sh
             if line[0] == "handle":
                 s.use(line[1])
+                continue
+            if line[0] in ("copy", "recreate", "frame"):
+                out = s.run(line, pres)
+                if line[0] == "recreate":
+                    if "err" not in out:
+                        return evals, fail("create_data_frame with the name of an existing frame was accepted", out,
+                                           "refused (DuplicateName), block unchanged",
+                                           "nixio/block.py:create_data_frame")
+                    site = "a refused create_data_frame with the name of frame %d" % line[1]
+                else:
+                    if "ok" not in out:
+                        return evals, fail("%s was refused" % ("create_data_frame(copy_from=frame)" if line[0] == "copy"
+                                                               else "block.data_frames[name]"), out, "accepted",
+                                           "nixio/block.py")
+                    if line[0] == "copy":
+                        shadows.append(sh.copy())
+                        curi = len(shadows) - 1
+                        site = "create_data_frame(copy_from=frame), read from the copy"
+                    else:
+                        curi = line[1]
+                        site = "operations on other frames of the block (back on frame %d)" % curi
+                    sh = shadows[curi]
+                f = check(sh, site)
+                if f:
+                    return evals, f
                 continue
             if line[0] == "copy_check":
                 f = copy_check(sh)
@@ -1505,7 +1575,18 @@ def oracle_history(ctx, k, rng, nops, fixed=None):
         s.reopen()
         hist.append({"line": ["reopen"], "expect": "accept"})
         f = check(sh, "reopen")
-        return evals, f
+        if f:
+            return evals, f
+        shadows[curi] = sh
+        # every frame of the block still holds its own table
+        for i in range(len(shadows)):
+            if i != curi:
+                hist.append({"line": ["frame", i], "expect": "accept", "pres": 0})
+                s.run(["frame", i])
+                f = check(shadows[i], "operations on other frames of the block (frame %d at the end)" % i)
+                if f:
+                    return evals, f
+        return evals, None
     finally:
         s.close()
 
@@ -1560,9 +1641,15 @@ def shadow_apply(sh, line):
         sh.units = [None if u in (None, "") else u for u in a[0]]
 
 
-def oracle_op(rng, sh):
+def oracle_op(rng, sh, nframes=1):
     """(line, 'accept' | <listed refusal cause>) — cells are always well-typed"""
     names, types, n, m = sh.names, sh.types, len(sh.rows), len(sh.names)
+    if rng.random() < 0.07:
+        # block level: a copy of this frame (selected from now on), another frame of the block, a name that exists
+        kind = rng.choice(["copy", "recreate"] + (["frame", "frame"] if nframes > 1 else []))
+        if kind == "copy":
+            return ["copy"], "accept"
+        return [kind, rng.randrange(nframes)], ("accept" if kind == "frame" else "the name of an existing frame")
     kinds = ["append_rows", "append_column", "set_units", "reopen"]
     if n:
         kinds += ["write_rows", "write_rows", "write_row_flat", "write_column", "write_column", "write_cell_pos",
@@ -1766,6 +1853,13 @@ FIXED_CASES = [
       {"how": "array", "mem": [1, 0], "rec": [["q", "i8"], ["p", "text"]]}]],
     [["create_names_types", ["a", "b"], ["i64", "text"], [[["i", 1], ["s", "x"]], [["i", 2], ["s", "y"]]],
       {"how": "frame", "read": "columns", "mem": [1, 0], "rec": [["b", "i32"], ["a", "text"]]}]],
+    # frames of one block are independent; a copy is a frame of its own; an existing name is refused
+    [["create_dict", [["a", "i64"], ["s", "text"]], [[["i", 1], ["s", "x"]], [["i", 2], ["s", "y"]]]],
+     _acc(["copy"]), _acc(["write_cell_pos", ["s", "changed"], [0, 1]]), _acc(["append_column", [["b", True], ["b", False]], "f", None]),
+     _acc(["frame", 0]), _acc(["append_rows", [[["i", 3], ["s", "z"]]]]),
+     {"line": ["recreate", 1], "expect": "the name of an existing frame"}, _acc(["frame", 1]),
+     _acc(["write_column", [["i", 8], ["i", 9]], 0, None]), _acc(["copy"]), _acc(["set_units", ["mV", None, None]]),
+     _acc(["frame", 1]), _acc(["reopen"]), _acc(["frame", 0])],
     # first / last / negative addresses on every write
     [["create_dict", [["a", "u8"], ["b", "bool"], ["c", "f64"]],
       [[["i", 0], ["b", False], ["f", "0/1"]], [["i", 255], ["b", True], ["f", "-9/4"]], [["i", 3], ["b", True], ["f", "1/2"]]]],
@@ -1903,7 +1997,11 @@ MANIFEST = {
                   "variant derives are theorems. Rows and creation data handed over as NumPy structured arrays "
                   "(record arrays, multi-field views, np.void lists, rows read from another frame) are proved to be "
                   "taken by position whatever the field names, offsets and padding are, and all history theorems are "
-                  "lifted to histories that use them. A second, byte-level model keeps text cells as UTF-8 bytes and "
+                  "lifted to histories that use them. The frames of a block are modelled, too: an existing name is "
+                  "refused before anything else, a refused creation leaves no frame behind, a copy (copy_from) is a "
+                  "frame of its own, and an operation on one frame leaves every other frame as it was. append_rows, "
+                  "write_column and append_column are also modelled effect by effect (NumPy stage, storage effects, "
+                  "h5py stage, roll-back handler) and proved to end in the state of the atomic model. A second, byte-level model keeps text cells as UTF-8 bytes and "
                   "follows the code in using raw rows (append_column, write_column) or rows converted by "
                   "_convert_string_cols (every read, write_cell); it is proved to simulate the abstract model step by "
                   "step for every history and to return the same from every read. The driver runs the byte-level "
@@ -1912,12 +2010,13 @@ MANIFEST = {
                   "reopen inside and at the end of every history) and by Generated/FrameShape.lean (guards, "
                   "helper-call order and per-object state of every modelled method, and the read path statement by "
                   "statement, regenerated from the source by an ast translator; four theorems compare it with the "
-                  "shape the model was written against).",
+                  "shape the model was written against). Three defects found on the way were repaired in nixio "
+                  "(unchecked NumPy casts storing 44 for 300, grouped column reads losing the column types).",
     "level_note": "Partial aspects: h5py/libhdf5 storage and NumPy scalar conversion are modelled (conv, enc), not "
                   "verified; the UTF-8 round trip is Lean's own (String is a validated byte array); reopening is the "
                   "identity in the model and carried by the correspondence; floats are exact rationals (no arithmetic "
                   "is done on cells); numeric-literal strings, ints beyond 2^53 for float columns, NaN/inf, frame "
-                  "names, copy_from (oracle case only) and compression "
+                  "names as text and compression "
                   "are outside the model (numbers an integer column cannot hold are inside: refused in every spelling "
                   "since fix ac50c5b). The positional reading of a structured array is "
                   "the model's definition (what the repaired code does); the theorems state that names and layout "
